@@ -422,3 +422,59 @@ Example ok_example : decls_ok ok_decls = true /\ ty_ok ok_decls (TNamed 1) = tru
   let '(_, v', c) := cp ok_decls (TNamed 1) (N.succ (max_id ok_val)) ok_val in
   erase v' = erase ok_val /\ ids v' = [6; 7; 8; 9; 10]%N /\ c = 0%N.
 Proof. vm_compute. repeat split; auto. Qed.
+
+(* ================= the hand-written functions of a type nested by value in an assignable struct are
+   bypassed when that struct sits in a slot: the second recorded known finding ================= *)
+(* 1 = Nested{ W Wrap; P *int }, 2 = Wrap{ A HandA; N int }, 3 = HandA{ N int } hand-written *)
+Definition bypass_decls : decls :=
+  [(1%N, DStruct false [TNamed 2; TPtr TScalar]); (2%N, DStruct false [TNamed 3; TScalar]); (3%N, DStruct true [TScalar])].
+Definition bypass_val : val := VRec [VRec [VRec [VS 1]; VS 2]; VNil].
+Theorem cp_hand_written_bypassed_refuted :
+  has_type bypass_decls bypass_val (TNamed 1) /\
+  (* the copy of a Nested value calls no hand-written function although it holds a HandA value ... *)
+  snd (cp_top bypass_decls (TNamed 1) 1 bypass_val) = 0%N /\
+  (* ... while the copy of the Wrap value itself does call it *)
+  snd (cp_top bypass_decls (TNamed 2) 1 (VRec [VRec [VS 1]; VS 2])) = 1%N.
+Proof. vm_compute. repeat split; auto. Qed.
+
+(* ---------- DeepCopyInto of a type itself: the theorems for slots carry over ---------- *)
+Lemma cp_members_erase D : forall vs fs n, map erase (snd (fst (cp_members D vs fs n))) = map erase vs.
+Proof.
+  induction vs as [|x vs IH]; intros fs n; [destruct fs; reflexivity|]. destruct fs as [|ft fs]; [reflexivity|].
+  cbn [cp_members]. pose proof (cp_erase D x ft n) as Hx. destruct (cp D ft n x) as [[n1 x'] c1].
+  pose proof (IH fs n1) as Hr. destruct (cp_members D vs fs n1) as [[n2 r] c2]. simpl in *. rewrite Hx, Hr. reflexivity.
+Qed.
+Theorem cp_top_erase D v t n : erase (snd (fst (cp_top D t n v))) = erase v.
+Proof.
+  unfold cp_top. destruct (resolve D (length D) t) as [| | | | |[|] fs| |]; try apply cp_erase.
+  destruct v as [| | |vs]; try apply cp_erase.
+  pose proof (cp_members_erase D vs fs n) as H. destruct (cp_members D vs fs n) as [[n1 vs'] c]. simpl in *. rewrite H. reflexivity.
+Qed.
+Ltac rng2 H := eapply in_range_weaken; [| |exact H]; lia.
+Lemma cp_members_range D : decls_ok D = true -> forall vs fs n, fields_typed D vs fs -> forallb (ty_ok D) fs = true ->
+  let '(n', vs', _) := cp_members D vs fs n in (n <= n')%N /\ in_range n n' (flat_map ids vs').
+Proof.
+  intros Hok. induction vs as [|x vs IH]; intros fs n Ht Ho.
+  - destruct fs; simpl; split; try lia; constructor.
+  - destruct fs as [|ft fs]; [destruct Ht|]. simpl in Ht, Ho. apply andb_true_iff in Ho. destruct Ht as [T1 T2], Ho as [O1 O2].
+    cbn [cp_members]. pose proof (cp_range D Hok x ft n O1 T1) as Hx. destruct (cp D ft n x) as [[n1 x'] c1].
+    pose proof (IH fs n1 T2 O2) as Hr. destruct (cp_members D vs fs n1) as [[n2 r] c2]. destruct Hx as [L1 R1], Hr as [L2 R2].
+    split; [lia|]. cbn [flat_map]. apply in_range_app; [rng2 R1|rng2 R2].
+Qed.
+Theorem cp_top_range D : decls_ok D = true -> forall v t n, ty_ok D t = true -> has_type D v t ->
+  let '(n', v', _) := cp_top D t n v in (n <= n')%N /\ in_range n n' (ids v').
+Proof.
+  intros Hok v t n Hty Ht. unfold cp_top.
+  pose proof (resolve_ok D Hok (length D) t Hty) as Hr.
+  destruct (resolve D (length D) t) as [| | | | |[|] fs| |] eqn:R; try (apply cp_range; assumption).
+  destruct v as [| | |vs]; try (apply cp_range; assumption).
+  rewrite (ht_struct D t false fs vs R) in Ht.
+  pose proof (cp_members_range D Hok vs fs n Ht Hr) as H. destruct (cp_members D vs fs n) as [[n1 vs'] c]. exact H.
+Qed.
+Theorem cp_top_disjoint D v t : decls_ok D = true -> ty_ok D t = true -> has_type D v t ->
+  let '(_, v', _) := cp_top D t (N.succ (max_id v)) v in forall i, In i (ids v) -> ~ In i (ids v').
+Proof.
+  intros Hok Hty Ht. pose proof (cp_top_range D Hok v t (N.succ (max_id v)) Hty Ht) as H.
+  destruct (cp_top D t (N.succ (max_id v)) v) as [[n' v'] c]. destruct H as [_ H].
+  intros i Hi Hi'. apply ids_le_max in Hi. unfold in_range in H. rewrite Forall_forall in H. specialize (H i Hi'). lia.
+Qed.
